@@ -38,6 +38,13 @@ Record kcfg := mkK {
 Definition WIRE_MAX_ADDRS : N := V.gen.Consts.KAD_MAX_ADDRESSES.
 Definition PUB_SHIFT : N := 256.
 Definition LOCAL_PUB : N := LOCAL_ID + 1.
+(* publisher bytes that are not a peer id: `record_from_schema` fails, the message is dropped *)
+Definition PUB_INVALID : N := 255.
+
+(* `KademliaMessage::from_bytes`: provider entries whose peer id or connection type does not
+   decode are skipped (validity 1 = decodes), then the list is cut to the replication factor *)
+Definition decoded_provs (repl : N) (provs : list (N * N * N * N)) : list (N * N * N) :=
+  firstn (N.to_nat repl) (map fst (filter (fun x : N * N * N * N => snd x =? 1) provs)).
 
 Definition rec_of (key val len pub : N) (exp : option N) : record :=
   mkRec key (val + PUB_SHIFT * pub) len exp.
@@ -47,7 +54,7 @@ Definition kstate0 : kstate := mkKS empty_tstore 0 false.
 
 Inductive kev :=
 | KPutValue (from key val len pub ttl : N)
-| KAddProvider (from key : N) (provs : list (N * N * N))     (* (peer, distance, addresses) *)
+| KAddProvider (from key : N) (provs : list (N * N * N * N))  (* (peer, distance, addresses, validity) as sent *)
 | KGetValue (from key : N)
 | KGetProviders (from key : N)
 | KCmdPutRecord (key val len : N) (exp : option N)
@@ -106,11 +113,12 @@ Definition kstep (kc : kcfg) (st : kstate) (e : kev) : kstate * kout :=
   match e with
   | KPutValue from key val len pub ttl =>
       let r := rec_of key val len pub (if ttl =? 0 then None else Some (ks_now st + ttl)) in
+      if pub =? PUB_INVALID then (settle kc st, KNone) else
       if k_auto kc
       then (settle kc (fst (do_top kc st (TOp (OPut r)))), KAck)
       else (settle kc st, KAck)
   | KAddProvider from key provs =>
-      match firstn (N.to_nat (k_repl kc)) provs with
+      match decoded_provs (k_repl kc) provs with
       | [(p, dist, na)] =>
           if p =? from
           then (settle kc (fst (do_top kc st (TOp (OPutProvider key p dist (N.min na WIRE_MAX_ADDRS))))), KNone)
